@@ -116,7 +116,7 @@ func modelConfigs(thorough bool) []mcfg {
 		{"keys", []string{"Ka", "Kbc", "Kboth", "Kanull", "Kb", "N", "Nbad"}, 3, 1, false},
 		{"batch", []string{"Mid", "Malt", "Mmiss", "Rm", "N"}, 3, 2, false},
 		{"wide", allKinds, 2, 2, false},
-		{"wide3", []string{"S", "Snull", "Kbc", "N", "Mid", "Malt", "R", "Rm", "U", "T0"}, 3, 1, false},
+		{"wide3", []string{"S", "Snull", "Kbc", "N", "Mid", "Malt", "U", "T0"}, 3, 1, false},
 	}
 }
 
@@ -127,7 +127,7 @@ func bigConfigs(thorough bool) []mcfg {
 	}
 	return []mcfg{
 		{"mix44", []string{"S", "Mid", "Malt", "T0"}, 4, 2, false},
-		{"req43", []string{"R", "Rm", "Rmnull", "S"}, 4, 2, false},
+		{"req43", []string{"R", "Rm", "Rmnull"}, 4, 2, false},
 		{"all3", allKinds, 3, 1, false},
 		{"cover", []string{"S", "Smiss", "Mid", "Malt", "Rm", "R", "U", "T0"}, 2, 1, true},
 	}
